@@ -636,6 +636,21 @@ fn nested_sweep(which: Which, tier: Tier) -> Sweep {
     .with_post_abort(abort_verdict)
 }
 
+fn type_group_sweep(which: Which, tier: Tier) -> Sweep {
+    let fam = Rc::new(sem::group_types_with(tier.pick(3, 3), true));
+    let f2 = fam.clone();
+    Sweep::new(
+        "definition groups that denote types (aliases and function types into other members, in every order)",
+        fam.len() as u64,
+        move |idx| {
+            count!("type_group_programs");
+            examine(&fam[idx as usize], which, tier)
+        },
+        move |idx| f2[idx as usize].clone(),
+    )
+    .with_post_abort(abort_verdict)
+}
+
 fn type_pair_sweep(which: Which, tier: Tier) -> Sweep {
     let fam = Rc::new(sem::type_pair_family(tier.pick(60, 140), tier));
     let f2 = fam.clone();
@@ -751,6 +766,98 @@ fn known_result_sweep(name: &str, progs: Vec<(String, String)>, tier: Tier) -> S
     .with_timeout(tier.pick(60, 300))
 }
 
+// Every sentence of the arithmetic / comparison sub-grammar over integer literals (all nine binary
+// operators, negation, parentheses) up to a token bound, the literals given distinct values by
+// position. The prescribed result is what the reference interpreter computes for the tree the grammar
+// assigns (chains folded to the left); ill-typed sentences (a comparison as an operand) must be rejected.
+fn expression_sentence_sweep(tier: Tier) -> Sweep {
+    use crate::model::{grammar::Grammar, tok::{K, Tok}};
+    let g = Grammar::load().restrict(
+        &[K::IntegerLiteral, K::LeftParen, K::RightParen, K::Plus, K::Minus, K::Asterisk, K::Slash, K::LessThan, K::LessThanOrEqualTo, K::DoubleEquals, K::GreaterThan, K::GreaterThanOrEqualTo],
+        &["let", "application", "non_dependent_pi"],
+    );
+    let sentences = Rc::new(RefCell::new(crate::enumerate::Sentences::new(g.clone(), 3, tier.pick(9, 10))));
+    let total = sentences.borrow().total;
+    let s2 = sentences.clone();
+    let g2 = g.clone();
+    const VALUES: [&str; 6] = ["10", "3", "2", "6", "7", "1"];
+    let tokens_of = move |g: &Grammar, tree: &crate::model::grammar::Tree| -> Vec<Tok> {
+        let mut n = 0;
+        crate::enumerate::name_simple(g, tree)
+            .into_iter()
+            .map(|t| {
+                if t.k == K::IntegerLiteral {
+                    n += 1;
+                    Tok::lit(VALUES[(n - 1) % VALUES.len()])
+                } else {
+                    t
+                }
+            })
+            .collect()
+    };
+    Sweep::new(
+        "arithmetic and comparison sentences over literals (every operator, precedence and association)",
+        total,
+        move |idx| {
+            let tree = sentences.borrow_mut().tree(idx);
+            let toks = tokens_of(&g, &tree);
+            let text = crate::model::tok::layout(&toks).0;
+            count!("evaluations");
+            count!("expression_sentences");
+            let want_tree = surface::reassoc(&surface::FromTree::new(&g, &toks).convert(&tree));
+            let Ok(m) = surface::resolve(&want_tree, &[]) else {
+                crate::infra::machinery(&format!("expression sentence does not resolve: {text}"));
+                return;
+            };
+            let want = match interp::run(&m, sem::INTERP_FUEL) {
+                Outcome::Value(v) => Some(v.describe()),
+                Outcome::DivisionByZero => Some("division by zero".to_owned()),
+                _ => None, // ill-typed: a comparison used as an operand
+            };
+            sem::front_end(&text, |f| match f {
+                FrontEnd::Accepted(acc) => {
+                    let Some(want) = &want else {
+                        violation("ill-typed-expression-accepted", &text, "rejected (the reference interpreter gets stuck on it)", &acc.ty.show());
+                        return;
+                    };
+                    let r = sem::evaluator_graph(acc.elab_real, 10_000, |_, _, _| {
+                        count!("states");
+                        count!("transitions");
+                    });
+                    let got = match r.end {
+                        RunEnd::Value => r.last.show(),
+                        RunEnd::Stuck => match interp::run(&r.last, sem::INTERP_FUEL) {
+                            Outcome::DivisionByZero => "division by zero".to_owned(),
+                            o => format!("stuck: {}", o.describe()),
+                        },
+                        RunEnd::Horizon => "no result within the horizon".to_owned(),
+                        RunEnd::Panic(m) => format!("panic: {m}"),
+                    };
+                    if got == *want {
+                        count!("value_as_prescribed");
+                        count!("traces_validated");
+                        count!("nontrivial");
+                    } else {
+                        violation("wrong-value", &text, &format!("{want} (the value of {})", m.show()), &got);
+                    }
+                }
+                FrontEnd::Rejected { messages, .. } => {
+                    if want.is_some() {
+                        violation("known-good-program-rejected", &text, &format!("accepted, result {}", want.as_ref().unwrap()), &messages.join(" | "));
+                    } else {
+                        count!("ill_typed_expressions_rejected");
+                    }
+                }
+                FrontEnd::Panic { message, .. } => violation("panic", &text, "a verdict", &message),
+            });
+        },
+        move |idx| {
+            let tree = s2.borrow_mut().tree(idx);
+            crate::model::tok::layout(&crate::enumerate::name_simple(&g2, &tree)).0
+        },
+    )
+}
+
 pub fn boundary_integers() -> Vec<String> {
     let base = ["0", "1", "2", "3", "7", "2147483648", "9223372036854775807", "9223372036854775808", "18446744073709551616", "1000000000000000000000000000000"];
     let mut v: Vec<String> = base.iter().map(|s| (*s).to_owned()).collect();
@@ -851,13 +958,16 @@ pub fn sweeps_for(which: Which, tier: Tier) -> Vec<Sweep> {
             v.push(alias_sweep(which, tier));
             v.push(order_sweep(which, tier, 2));
             v.push(order_sweep(which, tier, 3));
+            v.push(type_group_sweep(which, tier));
         }
         Which::C02 => {
             v.push(nested_sweep(which, tier));
             v.push(known_result_sweep("operand sweep: every operator on every pair of boundary integers", operand_programs(), tier));
             v.push(known_result_sweep("recursion, evaluation-order probes, examples", recursion_programs(), tier));
+            v.push(expression_sentence_sweep(tier));
             v.push(typed_sweep(which, tier, false, false));
             v.push(alias_sweep(which, tier));
+            v.push(type_group_sweep(which, tier));
         }
         Which::C03 => {
             v.push(nested_sweep(which, tier));
@@ -871,6 +981,7 @@ pub fn sweeps_for(which: Which, tier: Tier) -> Vec<Sweep> {
             v.push(typed_sweep(which, tier, true, true));
             v.push(alias_sweep(which, tier));
             v.push(small_sweep(which, tier));
+            v.push(type_group_sweep(which, tier));
         }
         Which::C06 => {
             v.push(nested_sweep(which, tier));
